@@ -193,6 +193,26 @@ def exprlex_doc(toks, ctx, rnd):
     return ("<svg>" + pre + body + "</svg>").encode("utf-8")
 
 
+def exprnum_doc(c):
+    f, a, ctx = c["fn"], c["args"], c["ctx"]
+    if ctx == "attr-braces":
+        e = (f" {f} ".join(f"({x})" for x in a)) if f in "+-*/%" else f"{f}({', '.join(a)})"
+        e = e.replace("<", "&lt;")
+        body = (f'<rect wh="2" data-v="{{{{{e}}}}}"/><rect wh="{{{{{e}}}}}" xy="1 1"/>'
+                f'<text xy="0 9" text="{{{{{e}}}}}"/>')
+    else:
+        x = "{{" + a[0] + "}}"
+        body = {"loop-count": f'<loop count="{x}"><rect wh="1"/></loop>',
+                "loop-start-step": f'<loop count="3" loop-var="i" start="{x}" step="{x}"><rect wh="1" xy="$i 0"/></loop>',
+                "geometry": f'<rect xy="{x}" wh="{x}"/><circle cxy="{x}" r="{x}"/><line xy1="{x}" xy2="0"/><rect id="q" wh="3"/><rect xy="#q|h {x}" wh="#q {x}%"/>',
+                "for-data": f'<for var="i" data="{x}, {x}"><rect wh="1" xy="$i 0"/></for>',
+                "repeat-text": f'<rect wh="9" text="t" text-offset="{x}" text-dxy="{x}"/><text xy="0" font-size="{x}" text="a\\nb" line-spacing="{x}"/>',
+                "config-limit": f'<config loop-limit="{x}" depth-limit="{x}" var-limit="{x}" border="{x}" scale="{x}"/><rect wh="2"/>',
+                "font-size": f'<config font-size="{x}"/><rect wh="9" text="t"/>',
+                "seed": f'<config seed="{x}"/><rect wh="{{{{1 + random()}}}}"/>'}[ctx]
+    return ("<svg>" + body + "</svg>").encode("utf-8")
+
+
 # --------------------------------------------------------------------------
 # scanner inputs from token classes
 # --------------------------------------------------------------------------
